@@ -16,11 +16,11 @@ class C17(pure.Spec):
     binary = "vh-app"
     design_ref = "DESIGN.md §5 C17"
     rule = ("the whole configuration matrix of the property, exhaustively (3 server certificates x name matches/differs x "
-            "skip-verify x 3 client certificates x client CA configured or not = 72 configurations, rcgen-generated chains): "
+            "skip-verify x 3 client certificates x client CA configured or not = 72 configurations, rcgen-generated chains; the root and client-CA files are bundles with the relevant certificate in the middle): "
             "the real tls_connect (make_client_config) connects over loopback to the real run_listener serving an identity "
             "built by make_tls_identity; observed: TLS up and an HTTP response received, and whether the server sent a "
             "CertificateRequest (probe client with a recording certificate resolver). Plus random identity-swap scripts "
-            "(handshake / reload_tls_identity with good or unreadable files / reuse of an established connection): "
+            "(handshake / reload_tls_identity with good or unreadable files / reuse of an established connection / a returning client, i.e. one persistent make_client_config configuration whose session cache survives its earlier connections, with or without the client certificate): "
             "certificate seen by each new handshake, result of each reload, established connections still answering. "
             "Name selection: the real client (client_main_inner -> ws_connect::handshake) for URL host {IP, name} x "
             "--hostname {none, the certificate's name, another} x --tls-server-name {same three} x skip-verify (36 "
